@@ -71,7 +71,9 @@ func checkC13(p *Program, r *Report) {
 		"range-reduction function together with the high and low 32-bit halves of the same modulus field, and the reduced value is only ever " +
 		"appended, compared or used as a map key. C13.width: no 64-bit set value (reduced hash, decoded delta, or sum of deltas) is narrowed by a " +
 		"conversion anywhere in the query / build functions, so two strategies cannot disagree on a low-32-bit collision. C13.dispatch: MatchAny " +
-		"forwards its own (key, data) unchanged to both strategies and returns their answer. Not decided: the Golomb–Rice codec round trip, sortedness."
+		"forwards its own (key, data) unchanged to both strategies and returns their answer. C13.consume: in each query loop every decoded delta is added to the " +
+		"running value and every decoded element is compared or indexed before the next read. C13.reader: the delta reader returns quotient·2^P + remainder with the " +
+		"filter's own P. Not decided: the Golomb–Rice codec round trip, sortedness."
 	r.Trusted = []string{"aead/siphash.Sum64 is a function of (item, key)", "kkdai/bstream bit reader"}
 	pkg := p.Pkg("gcs")
 	if pkg == nil {
@@ -608,6 +610,7 @@ func checkC13(p *Program, r *Report) {
 		}
 	}
 	r.Floor("C13.consume", 6)
+	r.Floor("C13.dispatch", 2)
 
 	// ---- C13.pipeline (cont.): the modulus used for reduction is the one the filter keeps
 	if ref != nil {
